@@ -1,0 +1,46 @@
+// Verification hooks (compiled only with `--cfg picilisp_verif`): count the polls of the
+// umbilical at the head of the evaluator loop and make a debugger command pending exactly
+// before a chosen poll, so that "the instant at which the command is sent" is reproducible.
+
+use crate::debug::DebugMessage;
+use std::cell::{Cell, RefCell};
+use std::sync::mpsc::Sender;
+
+thread_local! {
+    static POLLS:      Cell<u64> = Cell::new(0);
+    static INJECTIONS: RefCell<Vec<(u64, String)>> = RefCell::new(vec![]);
+    static CHANNEL:    RefCell<Option<Sender<DebugMessage>>> = RefCell::new(None);
+}
+
+pub fn verif_set_injections(injections: Vec<(u64, String)>, channel: Sender<DebugMessage>) {
+    POLLS.with(|p| p.set(0));
+    INJECTIONS.with(|i| *i.borrow_mut() = injections);
+    CHANNEL.with(|c| *c.borrow_mut() = Some(channel));
+}
+
+pub fn verif_clear_injections() {
+    POLLS.with(|p| p.set(0));
+    INJECTIONS.with(|i| i.borrow_mut().clear());
+    CHANNEL.with(|c| *c.borrow_mut() = None);
+}
+
+pub fn verif_polls() -> u64 {
+    POLLS.with(|p| p.get())
+}
+
+pub fn verif_poll() {
+    let n = POLLS.with(|p| { let n = p.get() + 1; p.set(n); n });
+    INJECTIONS.with(|i| {
+        for (k, command) in i.borrow().iter() {
+            if *k == n {
+                CHANNEL.with(|c| {
+                    if let Some(ch) = &*c.borrow() {
+                        let mut dm = DebugMessage::new();
+                        dm.insert("command".to_string(), command.clone());
+                        let _ = ch.send(dm);
+                    }
+                });
+            }
+        }
+    });
+}
